@@ -795,12 +795,34 @@ def rule_r11(ctx) -> List[R.Inst]:
             continue
         loops = [n for n in ast.walk(top[0]) if isinstance(n, ast.For) and any(
             isinstance(x, ast.FunctionDef) and x.name == "getter" for x in n.body)]
+        factory = None           # form B: for k in props: setattr(cl, k, _factory(k)) with the accessor pair built in the factory
         if len(loops) != 1:
-            insts.append(R.undec("C16.R11", f"{deco}", file, top[0].lineno, "per-key loop with getter/setter not found"))
-            continue
-        lp = loops[0]
+            for n in ast.walk(top[0]):
+                if isinstance(n, ast.For):
+                    for x in n.body:
+                        c = x.value if isinstance(x, ast.Expr) else None
+                        if isinstance(c, ast.Call) and unparse(c.func) == "setattr" and len(c.args) == 3 and isinstance(c.args[2], ast.Call) and \
+                                isinstance(c.args[2].func, ast.Name):
+                            fdef = [m for m in mod.tree.body if isinstance(m, ast.FunctionDef) and m.name == c.args[2].func.id]
+                            if len(fdef) == 1 and any(isinstance(y, ast.FunctionDef) and y.name == "getter" for y in fdef[0].body):
+                                factory = (n, c, fdef[0])
+            if factory is None:
+                insts.append(R.undec("C16.R11", f"{deco}", file, top[0].lineno, "per-key loop with getter/setter not found"))
+                continue
+        lp = loops[0] if factory is None else factory[0]
         kvar = [x.id for x in ast.walk(lp.target) if isinstance(x, ast.Name)][0]
-        fns = {x.name: x for x in lp.body if isinstance(x, ast.FunctionDef)}
+        fns = {x.name: x for x in (lp.body if factory is None else factory[2].body) if isinstance(x, ast.FunctionDef)}
+        # form B: the key is the factory parameter that receives the loop variable — bound per call, never late
+        fparam = None
+        if factory is not None:
+            fps = [a.arg for a in factory[2].args.args]
+            for i_, a_ in enumerate(factory[1].args[2].args):
+                if isinstance(a_, ast.Name) and a_.id == kvar and i_ < len(fps):
+                    fparam = fps[i_]
+            if fparam is None:
+                insts.append(R.viol("C16.R11", f"{deco}.register", file, lp.lineno,
+                                    f"the accessor factory is not called with the key '{kvar}'", construct=unparse(factory[1])))
+                continue
         for nm in ("getter", "setter"):
             f = fns.get(nm)
             key = f"{deco}.{nm}"
@@ -812,6 +834,8 @@ def rule_r11(ctx) -> List[R.Inst]:
             dflt = dict(zip([a.arg for a in args][::-1], f.args.defaults[::-1]))
             bound = [a for a, d in dflt.items() if isinstance(d, ast.Name) and d.id == kvar]
             late = any(isinstance(x, ast.Name) and x.id == kvar for b in f.body for x in ast.walk(b))
+            if factory is not None:
+                bound, late = [fparam], False
             if not bound or late:
                 insts.append(R.viol("C16.R11", key, file, f.lineno,
                                     f"the generated {nm} uses the loop variable '{kvar}' itself instead of a per-iteration default "
@@ -862,6 +886,10 @@ def rule_r11(ctx) -> List[R.Inst]:
         reg = [x for x in lp.body if isinstance(x, ast.Expr) and isinstance(x.value, ast.Call) and unparse(x.value.func) == "setattr"]
         ok_reg = len(reg) == 1 and len(reg[0].value.args) == 3 and unparse(reg[0].value.args[1]) == kvar and \
             unparse(reg[0].value.args[2]) == "property(getter, setter)"
+        if factory is not None:
+            frets = [x for x in factory[2].body if isinstance(x, ast.Return)]
+            ok_reg = len(reg) == 1 and unparse(reg[0].value.args[1]) == kvar and len(frets) == 1 and frets[0].value is not None and \
+                unparse(frets[0].value) == "property(getter, setter)"
         insts.append(R.ok("C16.R11", f"{deco}.register", file, lp.lineno, idiom=f"setattr(cl, {kvar}, property(getter, setter))") if ok_reg else
                      R.viol("C16.R11", f"{deco}.register", file, lp.lineno,
                             "the generated accessor pair is not registered under its own key as property(getter, setter)",
